@@ -267,6 +267,9 @@ func c05MSpec(in *c05MIn, erase bool, cacheSize int, gen int) string {
 	return string(b)
 }
 
+// totals over the whole run: a dead hit oracle must fail loudly
+var c05MReqs, c05MHits int
+
 type c05MHandler struct {
 	name string
 	log  *[]string
@@ -426,7 +429,14 @@ func c05MRun(in *c05MIn) (obs c05MObs) {
 			ro.Key = len(keys) + 1
 			keys[key] = ro.Key
 		}
-		ro.Hit = inst.cache != nil && inst.cache.Contains(key)
+		// eviction oracle: the lookup the router itself performs (independent of how the key
+		// is represented); it touches the entry's recency, which only makes this another
+		// legitimate cache history
+		ro.Hit = inst.getRouteFromCache(preq) != nil
+		c05MReqs++
+		if ro.Hit {
+			c05MHits++
+		}
 		for _, mr := range inst.rules {
 			ro.Host = append(ro.Host, mr.match(preq))
 			pb := [][3]bool{}
@@ -776,5 +786,9 @@ func TestVerifC05Mux(t *testing.T) {
 		in := c05MGen(r, adv)
 		obs := c05MRun(&in)
 		out.Emit(vfCase{ID: fmt.Sprintf("%s-mux-%d", src, i), Src: src, Grp: "mux", In: in, Obs: obs})
+	}
+	if c05MReqs > 500 && c05MHits == 0 {
+		out.Close()
+		t.Fatalf("C05 harness defect: %d requests on caching instances and not one cache hit observed", c05MReqs)
 	}
 }
